@@ -15,6 +15,15 @@ CLAIMED = {
    ref="DESIGN.md section 4, C17"),
 }
 
+CLAIMED["C12"] = dict(
+   text="Bounded symbolic model checking of the real byte channel, one transition at a time: the real channel is driven into each abstract state class (capacity, buffered count, who is parked on the single waker slot, closed-by) and ONE real operation (poll_read / poll_write / poll_flush / poll_shutdown / endpoint drop, concrete request size) is executed with symbolic buffered bytes, written bytes and coop budget; the complete real state (buffer bytes, closed flag, waker-slot owner, budget), the returned bytes/result and the wake counters are compared with a reference transition function. Covering every class x operation checks the transition relation for the stated sizes, hence histories of any length through the abstraction.",
+   note="Bounds: capacity 1..2 quick / 1..3 thorough, requests 0..2 bytes. Outside (CBMC runs out of memory, measured): non-empty writes and endpoint drops while the buffer is non-empty - so 'write on a full buffer parks the writer' is not executed; parked-writer and closed classes with buffered data are constructed on the private representation (waker slot / closed flag set directly) and only their onward transitions are checked. Assumes every operation runs entirely under the parking_lot mutex (sequential orders of operations = concurrent executions); parking_lot slow paths stubbed to panic; wakers are hand-written counting RawWakerVTables. Kernel-level only: no tokio scheduler, no real threads.",
+   ref="DESIGN.md section 4, C12")
+CLAIMED["C02"] = dict(
+   text="Bounded symbolic model checking of the real agent-side map-lane storage (MapStoreInner + WriteQueues/EventQueue coalescing + to_operation): every sequence of update(k)/remove(k)/clear/pop over 3 keys up to the stated length (operation kinds and key aliasing enumerated completely, values symbolic, epoch counter started at 0 and just below usize::MAX so it wraps) is executed on the real code, the queue is drained and the replica of an observer that applies what was popped must equal the lane's map; popped values must have been held by their key; the private epoch index must stay consistent.",
+   note="Bounds: 3 keys, values 0..8, shapes complete to length 3 (+ seeded third of length 4) quick / complete to 4 + 600 seeded of length 5 thorough. Outside (measured intractable): symbolic keys/epoch beyond tiny shapes, the sync-queue path (C03), the runtime MapOperationQueue (BytesMut), take/drop ordering, Recon-equal-but-different key texts, composition of the two coalescing layers across the byte channel and all task interleavings. std HashMap replaced by an association-list shim under cfg(kani); a flat 3-slot MapOps backing stands in for the std maps.",
+   ref="DESIGN.md section 4, C02")
+
 NA = {}
 
 def main():
